@@ -1,4 +1,4 @@
-#!/usr/bin/env python3
+#!/venv/bin/python
 """Rewrite the seeded-change table of DESIGN.md (between the CATCHES markers) from seeded/INDEX.json and the seeds' meta.json."""
 import json
 import os
